@@ -224,6 +224,8 @@ BASE_SLOTS = [s for s in SLOT_NAMES if s not in ("traj", "metric")]
 
 
 def pool(slot):
+    if slot == "static2":
+        return [(lab, 1) for lab, _ps in STATIC2]
     if slot == "intarg":  # pseudo-slot: the hand-enumerated integer-indexed problems INTARG
         return [(lab, 1) for lab, _ps in INTARG]
     name, kind, ai = next(s for s in SLOTS if s[0] == slot)
@@ -261,6 +263,8 @@ def mentions(x, names):
 def make(choices, variant=None):
     """choices: dict slot -> pool index (non-default slots only) -> problem spec.
     variant "bool": the same universe without the numeric fluents n, c, m."""
+    if "static2" in choices:  # pseudo-slot: one of the hand-enumerated STATIC2 problems
+        return dict(STATIC2[choices["static2"]][1])
     if "intarg" in choices:  # pseudo-slot: one of the hand-enumerated INTARG problems
         lab, ps = INTARG[choices["intarg"]]
         if variant == "bool" and lab.split(":")[1].startswith("cnt"):
@@ -443,6 +447,41 @@ def _intarg_specs():
 INTARG = _intarg_specs()
 
 
+# ======================================================================================
+# family static2: a STATIC binary fluent e(T,T) with an asymmetric extension, read by a3(x, y) at
+# both argument positions (the grounder prunes the candidates of each parameter by position)
+def _static2_specs():
+    X, Y = ("p", "x"), ("p", "y")
+    e = lambda a, b_: ("f", "e", a, b_)
+    pres = [
+        ("e(x,y)", (e(X, Y),)),
+        ("e(y,x)", (e(Y, X),)),
+        ("e(x,y),e(y,x)", (e(X, Y), e(Y, X))),
+        ("st(x),e(x,y)", (st(X), e(X, Y))),
+        ("e(x,y),st(y)", (e(X, Y), st(Y))),
+        ("e(x,x)", (e(X, X),)),
+        ("e(x,o2),e(o1,y)", (e(X, o2), e(o1, Y))),
+    ]
+    out = []
+    for lab, pre in pres:
+        for init in (((e(o1, o2), TRUE),), ((e(o1, o2), TRUE), (e(s1, o1), TRUE)), ((e(o2, o2), TRUE), (e(o2, s1), TRUE))):
+            ps = dict(make({}))
+            ps["fluents"] = tuple(ps["fluents"]) + (("e", B, (("a", T), ("b", T)), FALSE),)
+            ps["init"] = tuple(ps["init"]) + tuple(init)
+            acts = []
+            for a in ps["actions"]:
+                if a["name"] == "a3":
+                    a = dict(a, pre=tuple(pre), eff=(eff("assign", p(Y), TRUE),))
+                acts.append(a)
+            ps["actions"] = tuple(acts)
+            ps["goals"] = (p(o2),)
+            out.append(("static2:%s/%s" % (lab, "+".join("e(%s,%s)" % (k[2][1], k[3][1]) for k, _v in init)), ps))
+    return out
+
+
+STATIC2 = _static2_specs()
+
+
 def intarg_ids():
     """[(level, cid)] of the INTARG problems, for the universes of the checks that include them"""
-    return [(1, (("intarg", i),)) for i in range(len(INTARG))]
+    return [(1, (("intarg", i),)) for i in range(len(INTARG))] + [(1, (("static2", i),)) for i in range(len(STATIC2))]
